@@ -34,6 +34,7 @@ type c09Result struct {
 	Pred1303    bool `json:"pred_1303"`
 	I      int      `json:"i"`
 	Mesh   bool     `json:"mesh"`
+	Handed string   `json:"handed,omitempty"`
 	Schema string   `json:"schema"`
 	Types  []string `json:"types"`
 	Want   string   `json:"want"`
@@ -93,7 +94,16 @@ func init() {
 				}
 				ok := withTimeout(20*time.Second, func() {
 					pipeSpelling = []string{" | ", "|", "  |  ", " |", "| "}[i%5] // the blanks around the bar of a type shortcut mean nothing
+					if mesh && i%3 == 1 { // every third graph: the root is handed only the types its own text names (the types know each other)
+						rootOnly = append([]string{}, c.Used...)
+						res.Handed = "root"
+					}
+					if mesh && i%3 == 2 { // every third graph: every schema is handed only the types its own text names
+						chainOnly = true
+						res.Handed = "chain"
+					}
 					s, rr, err := buildSchema(c.Schema, c.Env, c.Opt, mesh)
+					rootOnly, chainOnly = nil, false
 					pipeSpelling = " | "
 					res.Schema = rr.Text
 					for _, t := range c.Env.Types {
